@@ -2549,6 +2549,14 @@ impl SubRule {
             *self.alphas.borrow_mut() = back_alphas.clone();
             *self.variables.borrow_mut() = back_varlbs.clone();
         }
+        // no alternative matched: a long segment has been rejected as a whole, its later copies are not a shorter segment to try next
+        if word.in_bounds(*pos) {
+            let mut seg_length = word.seg_length_at(*pos);
+            while seg_length > 1 {
+                pos.increment(word);
+                seg_length -= 1;
+            }
+        }
         Ok(false)
     }
 
